@@ -131,7 +131,8 @@ def capture_not_stratum(ctx, d, n=1):
     insts, addr = [], 0x401000
     rows = [("mov", ["%rax", "%rax"]), ("mov", ["%rax", "%rbx"]), ("mov", ["%rcx", "%rcx"]), ("mov", ["%rcx", "%rdx"]),
             ("inc", ["%rsi"]), ("inc", ["%rsi"]), ("ret", []), ("inc", ["%rsi"]), ("inc", ["%rdi"]), ("ret", []),
-            ("xor", ["%eax", "%eax"]), ("xor", ["%eax", "%ebx"]), ("add", ["%rax", "%rbx", ]), ("add", ["%rbx", "%rax"])]
+            ("xor", ["%eax", "%eax"]), ("xor", ["%eax", "%ebx"]), ("add", ["%rax", "%rbx", ]), ("add", ["%rbx", "%rax"]),
+            ("lea", ["(%rax)", "%rcx"]), ("lea", ["(%rbx)", "%rcx"]), ("lea", ["0x8(%rbx)", "%rcx"]), ("lea", ["(%rdx,%rax,2)", "%rcx"])]
     for m, ops in rows:
         insts.append(L.SInst(addr, m, list(ops), None, None, 3))
         addr += 3
@@ -143,7 +144,9 @@ def capture_not_stratum(ctx, d, n=1):
     saved = getattr(d, "flags", None)
     d.flags = "none"
     d.prep, d.style = prep, "capture-as-not-argument"
-    for pat in ([{"mov": ["&src", {"$not": ["&src"]}]}], [{"xor": ["&a", {"$not": ["&a"]}]}], [{"mov": ["&s", "&s"]}, {"mov": ["&s", {"$not": ["&s"]}]}],
+    for pat in ([{"lea": [{"$not": [{"$deref": {"main_reg": "%rax"}}]}, "rcx"]}], [{"lea": [{"$not": [{"$deref": {"main_reg": "rbx", "constant_offset": "0x8"}}]}, "rcx"]}],
+                [{"lea": [{"$not": [{"$or": [{"$deref": {"main_reg": "rax"}}, {"$deref": {"main_reg": "rbx"}}]}]}, "rcx"]}],
+                [{"mov": ["&src", {"$not": ["&src"]}]}], [{"xor": ["&a", {"$not": ["&a"]}]}], [{"mov": ["&s", "&s"]}, {"mov": ["&s", {"$not": ["&s"]}]}],
                 ["&first", {"$not": ["&first"]}, "ret"], ["&i", "&i", "ret"], ["&j", {"$not": ["&j"]}],
                 [{"mov": ["&genreg-a.64", {"$not": ["&genreg-a.64"]}]}], [{"xor": ["&genreg_b.32", {"$not": ["&genreg_b.32"]}]}],
                 [{"add": ["&x", "&y"]}, {"add": [{"$not": ["&x"]}, {"$not": ["&y"]}]}], [{"add": ["&x", "&y"]}, {"add": ["&y", {"$not": ["&y"]}]}]):
@@ -206,7 +209,7 @@ def not_grid_stratum(ctx, ws):
     lp = ws.write("notgrid.s", L.render(insts, ctx.rng, labels=False))
     n = len(seq)
     X = [("m", "a"), ("m", "b"), ("m", "c"), ("and", "ab"), ("and", "bc"), ("and", "abc"), ("and", "cc"), ("or", "ab"), ("or", "bc"), ("not", "a"), ("not", "c"),
-         ("and", "aab"), ("or", "ac")]
+         ("and", "aab"), ("or", "ac"), ("orrep", "c|ab|2"), ("orrep", "a|bc|2"), ("orrep", "b|ac|01"), ("orrep", "c|a|3")]
 
     def x_matches(x, i):
         kind, arg = x
@@ -216,6 +219,15 @@ def not_grid_stratum(ctx, ws):
             return i + len(arg) <= n and all(seq[i + k] == ch for k, ch in enumerate(arg))
         if kind == "or":
             return i < n and seq[i] in arg
+        if kind == "orrep":
+            # $or: [x, {$or: [y...], times: t}]  with t = 2, 3 (exactly) or 01 ({min: 0, max: 1}: may be empty, so X always matches)
+            single, group, t = arg.split("|")
+            if i < n and seq[i] == single:
+                return True
+            if t == "01":
+                return True
+            k = int(t)
+            return i + k <= n and all(seq[i + j] in group for j in range(k))
         return i < n and seq[i] != arg          # not
 
     def x_yaml(x):
@@ -226,6 +238,9 @@ def not_grid_stratum(ctx, ws):
             return {"$and": [names[ch] for ch in arg]}
         if kind == "or":
             return {"$or": [names[ch] for ch in arg]}
+        if kind == "orrep":
+            single, group, t = arg.split("|")
+            return {"$or": [names[single], {"$or": [names[ch] for ch in group], "times": {"min": 0, "max": 1} if t == "01" else int(t)}]}
         return {"$not": [names[arg]]}
 
     cells = []
